@@ -5,7 +5,7 @@ CONSTANTS
   RootDepth = 10
   ActivationDelay = 6
   CoinFreq = 4
-  CheckIndex = FALSE
+  CheckIndex = TRUE
 CHECK_DEADLOCK FALSE
 ALIAS TAlias
 VIEW TView
